@@ -56,7 +56,18 @@ CH == /\ st = "called" /\ R.kind = "ch"
                           "F5_scalar_centre", R.scalarCentreExplains)
       /\ st' = "returned" /\ UNCHANGED tid
 
-Next == LL \/ BIC \/ CH
+(* the covariance floor on integer matrices (entries exactly equal to +-eps included) *)
+AbsI(v) == IF v < 0 THEN -v ELSE v
+FLOOR == /\ st = "called" /\ R.kind = "floor"
+         /\ Clause("C03", "floor_zeroes_exactly_the_entries_of_magnitude_below_eps_and_keeps_the_rest",
+                   /\ Len(R.out) = Len(R.m)
+                   /\ \A i \in 1..Len(R.m) : /\ Len(R.out[i]) = Len(R.m[i])
+                                               /\ \A j \in 1..Len(R.m[i]) :
+                                                    R.out[i][j] = IF AbsI(R.m[i][j]) < R.eps THEN 0 ELSE R.m[i][j])
+         /\ Clause("C19", "floor_with_copy_leaves_its_argument_alone", R.copy => R.input_same)
+         /\ st' = "returned" /\ UNCHANGED tid
+
+Next == LL \/ BIC \/ CH \/ FLOOR
 Spec == Init /\ [][Next]_vars
 Accept == (st = "returned") => TLCSet(1, TLCGet(1) \cup {tid})
 Post == PrintT(<<"ACCEPTED", TLCGet(1)>>)
